@@ -957,13 +957,36 @@ const BASE_NAMES: [&str; 5] = ["a.roa", "ab-_0.cer", "Z9.mft", "x.crl", "A_b-c.G
 
 fn names_octets(ctx: &Ctx, fx: &Fixed, cms: &Cms) {
     let sp = ctx.space("names.octets",
-        "every octet value 0x00..=0xFF (NUL, space, backslash, %, :, DEL, 0x80.. among them) substituted at every position and inserted at every gap of 5 valid base names, alone and after a valid entry, DER and BER mode; every 5th distinct name (in octet order) also through Manifest::decode; non-trivial = distinct resulting names that differ from every base name");
+        "every octet value 0x00..=0xFF (NUL, space, backslash, %, :, DEL, 0x80.. among them) substituted at every position and inserted at every gap of 5 valid base names; every PAIR of octets at every two adjacent positions of one base name; the UTF-8 spellings of letter-like characters of two, three and four octets in place of octets of the extension and of the stem (a check on decoded characters instead of octets); each alone and after a valid entry, DER and BER mode; every 5th distinct name (in octet order) also through Manifest::decode; non-trivial = distinct resulting names that differ from every base name");
     let mut cases: Vec<Vec<u8>> = Vec::new();
     for b in BASE_NAMES {
         let b = b.as_bytes();
         for v in 0..=255u8 {
             for p in 0..b.len() { let mut n = b.to_vec(); n[p] = v; cases.push(n) }
             for p in 0..=b.len() { let mut n = b.to_vec(); n.insert(p, v); cases.push(n) }
+        }
+    }
+    // Round 13: a name check on decoded *characters* (alphabetic, alphanumeric) instead of octets lets through
+    // multi-octet sequences that no single substitution produces. Every pair of octets at every two adjacent
+    // positions of one base name, and every well-formed UTF-8 spelling of a letter-like character (two and three
+    // octets, a sample of four) in place of one, two or three octets of the extension and of the stem.
+    {
+        let b = BASE_NAMES[0].as_bytes();
+        for p in 0..b.len() - 1 { for v in 0..=255u8 { for w in 0..=255u8 { let mut n = b.to_vec(); n[p] = v; n[p + 1] = w; cases.push(n) } } }
+        let letters: Vec<char> = (0x80u32..0x800).chain((0x800u32..0x10000).step_by(7)).chain((0x10000u32..0x20000).step_by(101)).filter_map(char::from_u32).filter(|c| c.is_alphanumeric()).collect();
+        for base in ["a.roa", "Z9.mft"] {
+            let b = base.as_bytes();
+            let dot = b.iter().position(|x| *x == b'.').unwrap();
+            for c in &letters {
+                let mut buf = [0u8; 4];
+                let enc = c.encode_utf8(&mut buf).as_bytes();
+                // in the extension: replacing its first / last octets so that the octet count stays 3 where it can, and growing it
+                for (from, to) in [(dot + 1, dot + 1 + enc.len().min(3)), (dot + 1, dot + 2), (b.len() - 1, b.len()), (dot + 2, b.len())] {
+                    let mut n = b[..from].to_vec(); n.extend_from_slice(enc); n.extend_from_slice(&b[to.min(b.len())..]); cases.push(n);
+                }
+                // in the stem
+                let mut n = enc.to_vec(); n.extend_from_slice(&b[dot..]); cases.push(n);
+            }
         }
     }
     let generated = cases.len();
@@ -987,7 +1010,7 @@ fn names_octets(ctx: &Ctx, fx: &Fixed, cms: &Cms) {
     for p in parts { t.absorb(p) }
     t.flush(ctx, &sp);
     sp.set("base_names", serde_json::json!(BASE_NAMES));
-    sp.done(true, &format!("256 octet values x every position and gap of {} base names = {generated} substitutions/insertions, {} distinct names", BASE_NAMES.len(), cases.len()));
+    sp.done(true, &format!("256 octet values x every position and gap of {} base names, all 65 536 octet pairs at every two adjacent positions of one base name, and the UTF-8 spelling of letter-like characters (all of U+0080..U+07FF, every 7th up to U+FFFF, every 101st of plane 1) in the extension and the stem of two base names = {generated} names generated, {} distinct", BASE_NAMES.len(), cases.len()));
 }
 
 fn hash_bitstring(ctx: &Ctx, fx: &Fixed, cms: &Cms) {
